@@ -295,7 +295,8 @@ def special_rsa_keys(ctx, rng, count=2):
     r = random.Random(rng.getrandbits(64))
     while len(out) < count and tries < 40:
         tries += 1
-        bits = r.choice([1024, 1025, 1027, 1031, 1032])
+        # 1009..1015-bit moduli have exactly 127 content octets (the last short-form DER length), 1016 -> 128 (first long form)
+        bits = r.choice([1024, 1025, 1027, 1031, 1032, 1012, 1010, 1015, 1016] + ([2044, 2040] if ctx.tier == "thorough" else []))
         e = r.choice([3, 17, 65537])
         k = refrsa.make_rsa_key(bits, e, r)
         comps = [k["n"], k["d"], k["p"], k["q"], k["dp"], k["dq"], k["qinv"]]
